@@ -2,8 +2,8 @@
 """seedstore.py <Cxx> <mK> "<caught by: ...>" "<note>"  — copies a confirmed seeded change from /tmp/mut_Cxx/_mutation/mK to /verif/seeded/Cxx-mK/"""
 import json, os, shutil, sys
 cid, m, caught, note = sys.argv[1:5]
-src = "/tmp/mut_%s/_mutation/%s" % (cid, m)
-dst = "/verif/seeded/%s-%s" % (cid, m)
+src = "%s/_mutation/%s" % (os.environ.get("MUT_ROOT", "/tmp/mut_" + cid), m)
+dst = "/verif/seeded/%s-%s" % (cid, os.environ.get("MUT_NAME", m))
 os.makedirs(dst, exist_ok=True)
 shutil.copy(src + "/patch.diff", dst + "/patch.diff")
 shutil.copy(src + "/demo.rs", dst + "/demo.rs")
